@@ -146,7 +146,7 @@ def judge(vendor, acl_level, acl_compiled, acl_text, old, new, report):
     rbk, top = compiled_rb(vendor)
     case = {"vendor": vendor, "acl_text": acl_text, "old": old, "new": new}
     try:
-        diff, patch = api._diff_and_patch(env.device(vendor), env.to_odict(old), env.to_odict(new), acl_compiled, None, False, rb=rbk)
+        diff, patch = env.diff_and_patch(env.device(vendor), env.to_odict(old), env.to_odict(new), acl_compiled, None, False, rb=rbk)
     except Exception as e:  # noqa
         report({"kind": "exception", "exc": type(e).__name__, "acl_shape": acl_shape(acl_text)}, case, repr(e)[:300])
         return 0, False
@@ -155,7 +155,7 @@ def judge(vendor, acl_level, acl_compiled, acl_text, old, new, report):
     # owned and what may be deleted, so nothing may change
     if old != new:
         try:
-            _d2, patch2 = api._diff_and_patch(env.device(vendor), env.to_odict(old), env.to_odict(new), acl_compiled,
+            _d2, patch2 = env.diff_and_patch(env.device(vendor), env.to_odict(old), env.to_odict(new), acl_compiled,
                                               pass_all_filter(vendor), False, rb=rbk)
             paths2 = list(env.formatter(vendor).cmd_paths(patch2).keys())
         except Exception as e:  # noqa
